@@ -159,7 +159,7 @@ func specPlain4(p *packets.FrameParser) bool {
 //@ modifies t.mu, t.sentProbes, TCPv4.buffer, ghost clock, ghost wrN, ghost wrClock
 
 //@ func (*tcpDriver).ReceiveProbe
-//@ safety C09
+//@ safety C09 C08
 //@ requires[pre.nonnil]     t != nil && t.source != nil && t.parser != nil && t.parser.parserv4 != nil && t.parser.parserv6 != nil && t.config != nil
 //@ requires[C10.recv.open]  selb(isOpen, ref(t.source))
 //@ requires[pre.sent]       len(t.sentProbes) >= 1
